@@ -15,11 +15,11 @@ Proof. repeat split; vm_compute; reflexivity. Qed.
 (* a small table: f0(model) copies the dataset and hands the copy to f1, which writes into its parameter;
    f2(model) hands the dataset itself to f1; f3(df) returns its argument, f4 writes through f3's result *)
 Definition ex_fdefs : list fdef := [
-  mkfdef 1 (seqs [Op (Alias 2%N); Op (Copy 3%N [2%N]); Op (Call 4%N 1%N [[3%N]]); Op (Move 0%N [3%N])]);
+  mkfdef 1 (seqs [Op (Alias 2%N); Op (Copy 3%N [2%N]); Op (Call 4%N 9%N 1%N [[3%N]]); Op (Move 0%N [3%N])]);
   mkfdef 1 (Op (Write 1 1%N 11%N));
-  mkfdef 1 (seqs [Op (Alias 2%N); Op (Call 3%N 1%N [[2%N]])]);
+  mkfdef 1 (seqs [Op (Alias 2%N); Op (Call 3%N 9%N 1%N [[2%N]])]);
   mkfdef 1 (Op (Move 0%N [1%N]));
-  mkfdef 1 (seqs [Op (Alias 2%N); Op (Call 3%N 3%N [[2%N]]);
+  mkfdef 1 (seqs [Op (Alias 2%N); Op (Call 3%N 9%N 3%N [[2%N]]);
                   Star (Part (Alt (Op (Write 1 3%N 12%N)) (Op (Copy 3%N [3%N]))))])
 ].
 Definition ex_summ : list summary := solve 4 ex_fdefs 10 (bottom ex_fdefs).
@@ -112,4 +112,26 @@ Example eqhash_examples :
   hashed_not_compared colinfo_class_before_fix = [(9%positive, 0)] /\ hashed_not_compared model_class_before_fix = [(7%positive, 0); (10%positive, 1)] /\ cls_consistent model_class = true /\
   cls_eq parameter_class (fun t => Pos.to_nat (fst t)) (fun t => Pos.to_nat (fst t)) = true /\
   cls_eq parameter_class (fun t => Pos.to_nat (fst t)) (fun _ => 0) = false.
+Proof. repeat split; vm_compute; reflexivity. Qed.
+
+(* the dataset channel: f(model) has the IR parameters 1 (model) and 2 (what model.dataset denotes); ret2 = 3.
+   accepted: df = model.dataset.copy(); temp = model.replace(dataset=df); d = temp.dataset; d[...] = v
+   rejected: d = model.dataset; d[...] = v          (write site 22 into origin 2 = dataset of argument 0) *)
+Definition ds_fdefs : list fdef := [
+  mkfdef 2 (seqs [Op (Move 4%N [2%N]); Op (Copy 6%N [4%N]); Op (Copy 8%N [1%N]); Op (Move 9%N [6%N]);
+                  Op (Move 10%N [9%N]); Op (Write 1 10%N 21%N)]);
+  mkfdef 2 (seqs [Op (Move 4%N [2%N]); Op (Write 1 4%N 22%N)])
+].
+Definition ds_summ : list summary := solve 4 ds_fdefs 10 (bottom ds_fdefs).
+Example dataset_channel_example :
+  consistent 4 ds_fdefs ds_summ = true /\
+  map ds_clean ds_summ = [true; false] /\ map input_clean ds_summ = [true; true] /\
+  offending (nth 1 ds_summ dsum) = [(1, 2, 22%N)] /\
+  ret2 2 = 3%N.
+Proof. repeat split; vm_compute; reflexivity. Qed.
+
+(* immutability: a cache store and a singleton store leave the fields alone; construction stores are allowed kinds *)
+Example immutable_example :
+  i_fields (run_stores [(SCache, 0, 99); (SSingleton, 3, 4)] (mkinst (fun g => g + 1) None)) 5 = 6 /\
+  forallb skind_allowed [SInit; SCache; SSingleton] = true /\ skind_allowed SOther = false.
 Proof. repeat split; vm_compute; reflexivity. Qed.
